@@ -90,6 +90,7 @@ type Record struct {
 	Conns      []*vmem.Conn // client ends
 	Mapper     *hx.Mapper
 	Sched      *vrt.Sched
+	AliasWithin    string // values of one delivered transaction share memory (found by the scribbling handler)
 	HandlerOverlap bool
 	HandlerAfterReturn bool
 	Final      []hx.TxSnap // deliveries re-read after everything ended
@@ -249,6 +250,9 @@ func body(sc *Scenario, rec *Record) {
 				res = errors.New("scripted handler failure")
 			}
 			if at.HandlerMode == "scribble" && res == nil {
+				if why := hx.AliasProbe(tx); why != "" && rec.AliasWithin == "" {
+					rec.AliasWithin = why
+				}
 				hx.Scribble(tx)
 			}
 			d.Accepted = res == nil
